@@ -1,9 +1,12 @@
 import TrucModel.Proofs.Corollaries
+import TrucModel.Proofs.GenProps
 import TrucModel.Props.Examples
 /-
   C13 — Any definition the builder accepts can be displayed, generated and compiled.
-  This file: nothing panics (strategies, Display, capacity, alignment); the compile half is in the
-  generator section.
+  This file: nothing panics (strategies, Display, capacity, alignment, `generate()`); the compile half
+  is modelled by the three compiler rules of `Model/Static.lean` (`C11_accepts_when_right`: a generated
+  module whose recorded type information is right is accepted) and otherwise carried by channel X, which
+  compiles every sampled module with all four fragment selections in three builds.
 -/
 namespace Truc
 
@@ -29,6 +32,19 @@ theorem C13_display_no_panic (reqs : List Req) (hv : ∀ r ∈ reqs, r.valid) (d
 theorem C13_maxSize_no_panic (d : Definition)
     (hfit : ∀ v ∈ d.variants, ∀ id ∈ v, off d.defs id + sz d.defs id < 2 ^ 64) : d.maxSize.isSome = true :=
   maxSize_isSome hfit
+
+/-- `generate()` does not panic on a definition built from valid requests whose layout fits in `usize`,
+    whatever the fragment selection -/
+theorem C13_generate_no_panic (reqs : List Req) (hv : ∀ r ∈ reqs, r.valid) (d : Definition)
+    (hb : (run reqs).build = some d) (cfg : Gen.Cfg)
+    (hfit : ∀ v ∈ d.variants, ∀ id ∈ v, off d.defs id + sz d.defs id < 2 ^ 64) :
+    (Gen.module d cfg).isSome = true ∧ d.display.isSome = true := by
+  refine ⟨?_, C13_display_no_panic reqs hv d hb⟩
+  have hm := C13_maxSize_no_panic d hfit
+  unfold Gen.module
+  cases hms : d.maxSize with
+  | none => rw [hms] at hm; simp at hm
+  | some ms => rfl
 
 /-- non-vacuity, including an add-then-remove-before-close -/
 example : (run (Ex.h1 ++ [.add (Ex.I "x" 8 8), .remove 6, .close .simple])).build.isSome = true ∧
